@@ -17,6 +17,9 @@ func init() {
 			"(R3) the interceptor list is only updated with persistent stream operations: Add appends per argument in order, Remove uses RemoveItem per argument, Clear assigns an empty stream. Not decided: Add/Remove histories with duplicates at value level; a hand-built SimpleHTTPDef{} without constructor.",
 		Trusted: append([]string{"net/http calls the client's Transport.RoundTrip once per request attempt"}, commonTrusted...),
 		Run:     runC18,
+		Relies: []Dep{
+			{Prop: "C05", Rule: "R2", Keys: []string{"StreamDef.RemoveItem~", "StreamDef.Append~", "StreamDef.Concat~"}, Floor: 3, Why: "the interceptor list is edited with Stream.Append/RemoveItem, whose element semantics are pinned by agreement with their interface{} twins"},
+		},
 	})
 }
 
